@@ -105,7 +105,14 @@ fn check_case_inner(case: &Case) -> CaseResult {
     let mut sr = StreamReader::new();
     let judge = StreamReader::chunk_judge(max_size, limit);
     let describe = |i: usize| format!("record #{i} (block size {block:?}, max size {max_size}, limit {limit:?}, stream {})", show(&stream));
+    // The reader is `Clone`: before one generated record it is forked together with the
+    // underlying reader's position; the copy must go on to return the same records.
+    let fork_at = (stream.len() + case.delivery.script.len()) % 4;
+    let mut fork: Option<(StreamReader, CyclicReader<'_>)> = None;
     for (i, (want_bytes, want_range)) in expected.iter().enumerate() {
+        if i == fork_at {
+            fork = Some((sr.clone(), reader.clone()));
+        }
         let got = sr
             .next_record_bytes(&mut reader, &judge, next_block())
             .map_err(|e| Fail::new("reader:io-error", format!("next_record_bytes failed although the reader only interrupts: {e}")))?;
@@ -164,6 +171,30 @@ fn check_case_inner(case: &Case) -> CaseResult {
             if sr.last_sentinel_offset() != *p as u64 {
                 return Err(Fail::new("reader:last-sentinel-offset", format!("at end of stream last_sentinel_offset() is {}, expected {p}", sr.last_sentinel_offset())));
             }
+        }
+    }
+    if let Some((mut copy, mut copy_reader)) = fork {
+        for (j, (want_bytes, want_range)) in expected.iter().enumerate().skip(fork_at) {
+            let got = copy
+                .next_record_bytes(&mut copy_reader, &judge, block)
+                .map_err(|e| Fail::new("reader:io-error", format!("next_record_bytes on a clone failed: {e}")))?;
+            let same = match &got {
+                Some((iovec, range)) => iovec.flatten().map(|b| b[..] == **want_bytes).unwrap_or(false) && range == want_range,
+                None => false,
+            };
+            if !same {
+                return Err(Fail::new(
+                    "reader:clone-diverges",
+                    format!(
+                        "a clone taken before record #{fork_at} returns {:?} as record #{j}; the original returned {} at {want_range:?}",
+                        got.as_ref().map(|(io, r)| (io.total_size(), r.clone())),
+                        show(want_bytes)
+                    ),
+                ));
+            }
+        }
+        if let Ok(Some((io, r))) = copy.next_record_bytes(&mut copy_reader, &judge, block) {
+            return Err(Fail::new("reader:clone-diverges", format!("a clone taken before record #{fork_at} returns an extra record of {} bytes at {r:?}", io.total_size())));
         }
     }
     let nontrivial = (expected.len() >= 2 && interleaved) || (reader.split_sentinels > 0 && !expected.is_empty());
@@ -436,7 +467,7 @@ fn replay(_ctx: &Ctx, group: &str, case: &Value) -> CaseResult {
 pub fn def() -> PropDef {
     PropDef {
         id: "C06",
-        rule: "A case is (stream description, delivery, judge parameters): streams and deliveries as in C08 (records, torn and corrupted records, garbage, lone FE, 0..3 delimiters after each token, whole-stream truncation; scripted short reads / EINTR, block sizes {0,1,2,3,4,5,7,8,64,4096,70000,default}, arena preparation); in one delivery out of four every next_record_bytes call gets its own io_block_size; the standard judge gets a size limit placed at the decoded size of some valid record -1/0/+1 and an offset limit placed at the start of some segment -1/0/+1 (or none). Oracle: split the stream at every FE FD with an independent splitter, keep non-empty segments up to the first one starting at or after the limit, keep those the reference decoder accepts with decoded size <= max; next_record_bytes must return exactly that list of (bytes, byte range), then None three times, without error or panic; last_sentinel_offset is the start of the last delimiter read. A small log truncated at every byte is enumerated; long-streams uses up to 70 tokens (several arena chunks' worth of records) with block sizes 3..4096, so that reads cross arena chunk boundaries in many alignments; block-aligned-tails lays out valid filler records so that a record with a 00 00 final header (252- or 504-byte payload) or a short record ends 0..4 bytes around an I/O block boundary (blocks 64 / 100 / 256 / 1000 / 2048 / 4096), with the arena flushed between records through the returned record's arena(). large-records: 1..4 tokens built on payloads of up to 140000 bytes (one in nine of 0.5..1.3 MB: more than a default I/O block and than the arena's largest chunk), valid, torn or corrupted, block sizes >= 64 and default. transient-eof: the reader now and then returns Ok(0) with bytes left and goes on later; what becomes of a record cut in two that way is not specified, so only this is checked: each returned record is exactly the reference decoding of the segment its byte range designates, ranges go forward, nothing panics, the stream ends up read. Non-trivial: >= 2 returned records with a skipped (invalid / oversized / empty-payload) segment between two of them, or a read that split an FE|FD pair in a stream with at least one returned record. Distinct: hash of the serialised case.",
+        rule: "A case is (stream description, delivery, judge parameters): streams and deliveries as in C08 (records, torn and corrupted records, garbage, lone FE, 0..3 delimiters after each token, whole-stream truncation; scripted short reads / EINTR, block sizes {0,1,2,3,4,5,7,8,64,4096,70000,default}, arena preparation); in one delivery out of four every next_record_bytes call gets its own io_block_size; the standard judge gets a size limit placed at the decoded size of some valid record -1/0/+1 and an offset limit placed at the start of some segment -1/0/+1 (or none). Oracle: split the stream at every FE FD with an independent splitter, keep non-empty segments up to the first one starting at or after the limit, keep those the reference decoder accepts with decoded size <= max; next_record_bytes must return exactly that list of (bytes, byte range), then None three times, without error or panic; last_sentinel_offset is the start of the last delimiter read. A small log truncated at every byte is enumerated; long-streams uses up to 70 tokens (several arena chunks' worth of records) with block sizes 3..4096, so that reads cross arena chunk boundaries in many alignments; block-aligned-tails lays out valid filler records so that a record with a 00 00 final header (252- or 504-byte payload) or a short record ends 0..4 bytes around an I/O block boundary (blocks 64 / 100 / 256 / 1000 / 2048 / 4096), with the arena flushed between records through the returned record's arena(). large-records: 1..4 tokens built on payloads of up to 140000 bytes (one in nine of 0.5..1.3 MB: more than a default I/O block and than the arena's largest chunk), valid, torn or corrupted, block sizes >= 64 and default. transient-eof: the reader now and then returns Ok(0) with bytes left and goes on later; what becomes of a record cut in two that way is not specified, so only this is checked: each returned record is exactly the reference decoding of the segment its byte range designates, ranges go forward, nothing panics, the stream ends up read. Before one generated record the StreamReader is cloned together with the underlying reader's position; the clone must go on to return the same records. Non-trivial: >= 2 returned records with a skipped (invalid / oversized / empty-payload) segment between two of them, or a read that split an FE|FD pair in a stream with at least one returned record. Distinct: hash of the serialised case.",
         assumptions: &[
             "only the standard judge (chunk_judge) is modelled",
             "readers only deliver short reads and Interrupted errors",
